@@ -551,16 +551,27 @@ def b2(rep, w):
     back = [v for (op, v) in consts_in(ej, ('Sub',))]
     r.check(raw == short and back == [raw], 'emit_jump: %d placeholder bytes, returns len - %s' % (raw, back),
             'emit_jump writes %d placeholder bytes and returns len - %s; the VM reads a %d-byte offset' % (raw, back, short), ej.loc())
+    def with_new_helpers(f, ops):
+        # the constants of f and of the helpers it calls that the tree the rules were written against does not have (an operand
+        # encoder factored out into chunk.rs): the arithmetic is judged wherever the refactoring put it
+        import json, os
+        known = set(json.load(open(os.path.join(os.path.dirname(os.path.abspath(__file__)), 'tables', 'known_fns.json'))))
+        out = list(consts_in(f, ops))
+        for _, t in f.calls():
+            g = w.fns.get(callee_name(t) or '')
+            if g is not None and g.path not in known and g.file.endswith(('chunk.rs', 'compiler.rs')):
+                out += list(consts_in(g, ops))
+        return out
     pj = w.require_fn(COMPILER + 'patch_jump', 'C04')
     subs = [v for (op, v) in consts_in(pj, ('Sub',))]
-    adds = [v for (op, v) in consts_in(pj, ('Add',))]
+    adds = [v for (op, v) in with_new_helpers(pj, ('Add',))]
     r.check(subs == [short] and adds == [1], 'patch_jump: jump = len - offset - %s, patches code[offset], code[offset + 1]' % subs,
             'patch_jump subtracts %s and patches at offsets +%s (operand width is %d)' % (subs, adds, short), pj.loc())
     el = w.require_fn(P + 'emit_loop', 'C04')
     adds = [v for (op, v) in consts_in(el, ('Add',))]
     r.check(adds == [short], 'emit_loop: offset = len - loop_start + %s' % adds, 'emit_loop adds %s for the operand it is about to write (operand width %d)' % (adds, short), el.loc())
     po = w.require_fn(P + 'patch_offset_at', 'C04')
-    adds = [v for (op, v) in consts_in(po, ('Add',))]
+    adds = [v for (op, v) in with_new_helpers(po, ('Add',))]
     subs = [v for (op, v) in consts_in(po, ('Sub',))]
     r.check(adds == [1] and subs == [], 'patch_offset_at: jump = len - offset, patches code[pos], code[pos + 1]', 'patch_offset_at arithmetic changed: adds %s subs %s' % (adds, subs), po.loc())
     # try_statement passes pos and pos + 2 (second short) and both are relative to the ip after the two operands
@@ -599,7 +610,7 @@ def b2(rep, w):
         for bi, t in f.calls():
             n = strip_generics(callee_name(t) or '')
             tail = n.rsplit('::', 1)[-1]
-            if f.file.endswith('compiler.rs') and tail in ('to_ne_bytes', 'to_le_bytes', 'to_be_bytes') and 'u16' in (callee_name(t) or ''):
+            if f.file.endswith(('compiler.rs', 'chunk.rs')) and tail in ('to_ne_bytes', 'to_le_bytes', 'to_be_bytes') and 'u16' in (callee_name(t) or ''):
                 enc.add(tail[3:5])
             if f.file.endswith('vm.rs') and tail in ('from_ne_bytes', 'from_le_bytes', 'from_be_bytes') and 'u16' in (callee_name(t) or ''):
                 dec.add(tail[5:7])
